@@ -1172,6 +1172,11 @@ def grad_loss(
     assert loss is not None
     if q == 0:
         loss.abs_()
+    elif q < 1:
+        # derivative of x**q at zero is infinite: use sub-gradient zero where all partial derivatives
+        # are zero (e.g., initial zero or constant vector field) instead of 0 * inf = NaN
+        zero = loss == 0
+        loss = loss.masked_fill(zero, 1).pow_(q).masked_fill_(zero, 0)
     elif q != 1:
         loss.pow_(q)
     loss = reduce_loss(loss, reduction)
